@@ -78,11 +78,30 @@ def build(tier, repo):
             stop_if = _enclosing_branch(r, loop)
             pre = sc.preceding_in_blocks(r, stop_if)
             scal_factors = {}
+            rconds = sorted(repr(c_) for c_ in pf.path_condition(r, stop=loop))
             for st in pre:
                 for c in ast.walk(st):
                     if isinstance(c, ast.Call) and pf.call_name(c) in ("xscal", "yscal", "blas.scal") and len(c.args) >= 2 \
                             and isinstance(c.args[1], ast.Name):
                         scal_factors.setdefault(c.args[1].id, []).append(c.args[0])
+                        cconds = sorted(repr(c_) for c_ in pf.path_condition(c, stop=loop))
+                        if cconds != rconds:
+                            extra = [x for x in cconds if x not in rconds]
+                            r1.violation(key + ":scaling of %s unconditional" % c.args[1].id, m.where(c, fn),
+                                         "the normalising scaling of `%s` only runs under the extra condition %s while the certificate is returned "
+                                         "regardless: on the other paths the returned vectors are scaled inconsistently" % (c.args[1].id, extra),
+                                         "scaled on every path to the return", extra)
+                        else:
+                            r1.ok(key + ":scaling of %s unconditional" % c.args[1].id, m.where(c, fn))
+                    # max_step with a sigma argument replaces the 's' blocks of its first argument by eigenvectors
+                    if isinstance(c, ast.Call) and pf.call_name(c) == "misc.max_step" and c.args and isinstance(c.args[0], ast.Name) \
+                            and (len(c.args) >= 4 or any(k_.arg == "sigma" for k_ in c.keywords)):
+                        kept_names = {items[kk].id for kk in spec["kept"] if isinstance(items.get(kk), ast.Name)}
+                        if c.args[0].id in kept_names:
+                            r3.violation(key + ":max_step destroys %s" % c.args[0].id, m.where(c, fn),
+                                         "misc.max_step is called with a sigma argument on the returned vector `%s`: it overwrites the 's' blocks with "
+                                         "eigenvectors, so the certificate handed back is not the vector that was tested" % c.args[0].id,
+                                         "misc.max_step(%s, dims) without sigma" % c.args[0].id, pf.norm_expr(c)[:70])
             if len(nonnull) != 1 or not (isinstance(nonnull[0].value, ast.BinOp) and isinstance(nonnull[0].value.op, ast.Div)):
                 r1.undecided(key + ":normalisation", where, "residual definition is not `expr / D`")
             else:
